@@ -34,6 +34,9 @@ structure St where
   raced : List Nat := []
   /-- `p_uthread_shutdown` has been called: no further op is accepted -/
   shut : Bool := false
+  /-- `(actor, handle)`: the actor is blocked inside the `p_uthread_join` it issued with `jbegin` (the target had
+      not ended); the machine's `join` event happens at `jend`, which is enabled only once the target has ended -/
+  joining : List (Nat × Nat) := []
 
 /-- a native key is shown as `<PUThreadKey id>.<index among that key's native keys>` (`?` for a raced key) -/
 def showN (raced : List Nat) (s : State) (n : Nat) : String :=
@@ -131,6 +134,8 @@ def fmtR (kind : String) (ret : List Int) : String :=
   | "current", [h] => "H" ++ toString h
   | "value", [v] => toString v
   | "noexit", _ => "noexit"
+  | "blocked", _ => "blocked"
+  | "null", _ => "NULL"
   | "none", [] => "-"
   | _, _ => "?"
 
@@ -154,6 +159,33 @@ def tlsOp (what : String) (t : Nat) (k : Nat) (v : Nat) : Option Ev :=
   | "start" => some (.start t)
   | _ => none
 
+/-- options of `create`: `n` / `n<LEN>` (name), `x` (child runs into the proxy while the creator is inside
+    `p_uthread_create_full`), `p<0-7>` / `s<KB>` (`p_uthread_create_full`), `eperm` (first native create fails, the library
+    retries), `eagain` (native create fails: NULL).  `none` = malformed. -/
+structure COpts where
+  named : Bool := false
+  early : Bool := false
+  fail : Bool := false
+  modes : Nat := 0
+
+def digitsOk (x : String) (maxLen : Nat) : Bool :=
+  let d := x.toList.drop 1
+  decide (d.length ≥ 1) && decide (d.length ≤ maxLen) && d.all Char.isDigit
+
+def numOf (x : String) : Nat := (x.toList.drop 1).foldl (fun n c => n * 10 + (c.toNat - 48)) 0
+
+def parseCOpts : List String → COpts → Option COpts
+  | [], o => if o.modes ≤ 1 then some o else none
+  | x :: r, o =>
+    if x = "n" then parseCOpts r { o with named := true }
+    else if x = "x" then parseCOpts r { o with early := true, modes := o.modes + 1 }
+    else if x = "eagain" then parseCOpts r { o with fail := true, modes := o.modes + 1 }
+    else if x = "eperm" then parseCOpts r { o with modes := o.modes + 1 }
+    else if x.startsWith "n" ∧ digitsOk x 4 ∧ numOf x ≤ 1000 then parseCOpts r { o with named := true }
+    else if x.startsWith "p" ∧ digitsOk x 4 ∧ numOf x ≤ 7 then parseCOpts r o
+    else if x.startsWith "s" ∧ digitsOk x 4 then parseCOpts r o
+    else none
+
 def kindOf (what : String) : String := if what = "get" then "value" else if what = "current" then "current" else "none"
 def keyOf (what : String) (k : Nat) : Nat := if what = "current" ∨ what = "start" then 0 else k
 
@@ -161,7 +193,7 @@ def step (s : St) (toks : List String) : IO (St × Bool) := do
   let bad : IO (St × Bool) := do IO.println "bad-op"; return (s, false)
   -- run the events of one op on the model and on the spec, print the line
   let fin (es : List Ev) (kind : String) (pend' : List Pend := s.pend) (showNative := true) (status : String := "")
-      (raced' : List Nat := s.raced) : IO (St × Bool) := do
+      (raced' : List Nat := s.raced) (joining' : List (Nat × Nat) := s.joining) : IO (St × Bool) := do
     match runEvs (raced := raced') s.m es with
     | .bad => bad
     | .fault e => IO.println (faultText e); return (s, true)
@@ -172,8 +204,14 @@ def step (s : St) (toks : List String) : IO (St × Bool) := do
       let nat := if status = "" then nat else status :: nat
       IO.println (a ++ " ob=" ++ toString (otherBlocks m') ++ " N=" ++ (if showNative then ",".intercalate nat else "~")
         ++ (if a = b then "" else " SPECDIFF " ++ b))
-      return ({ s with m := m', sp := sp.1, pend := pend', raced := raced' }, false)
+      return ({ s with m := m', sp := sp.1, pend := pend', raced := raced', joining := joining' }, false)
   let m := s.m
+  -- an op that is no event of the machine (a call that blocks, fails before it does anything, or touches no handle state)
+  let idle (kind : String) (joining' : List (Nat × Nat) := s.joining) : IO (St × Bool) := do
+    let a := apiPart kind { live := PV.UThreadSpec.liveOf m }
+    let b := apiPart kind { live := s.sp.live }
+    IO.println (a ++ " ob=" ++ toString (otherBlocks m) ++ " N=" ++ (if a = b then "" else " SPECDIFF " ++ b))
+    return ({ s with joining := joining' }, false)
   if s.shut ∧ toks ≠ ["reset"] then bad else
   match toks with
   | ["reset"] => IO.println "ok"; return ({}, false)
@@ -182,7 +220,7 @@ def step (s : St) (toks : List String) : IO (St × Bool) := do
     match a.toNat? with
     | none => bad
     | some a =>
-      if ¬ s.pend.isEmpty then bad else
+      if ¬ s.pend.isEmpty ∨ ¬ s.joining.isEmpty then bad else
       match shutdown m a with
       | .error .notEnabled => bad
       | .error e => IO.println (faultText e); return (s, true)
@@ -202,7 +240,7 @@ def step (s : St) (toks : List String) : IO (St × Bool) := do
   | ["race", k, t1, v1, t2, v2] =>
     match k.toNat?, t1.toNat?, v1.toNat?, t2.toNat?, v2.toNat? with
     | some k, some t1, some v1, some t2, some v2 =>
-      if t1 = t2 ∨ isPending s t1 ∨ isPending s t2 ∨ t1 = 0 ∨ t2 = 0 then bad else
+      if t1 = t2 ∨ isPending s t1 ∨ isPending s t2 ∨ t1 = 0 ∨ t2 = 0 ∨ s.joining.any (fun p => p.1 = t1 ∨ p.1 = t2) then bad else
       let pre : List Ev := match (m.key k).published with
         | some _ => []
         | none => [.keyCreate t1 k, .keyCreate t2 k, .keyCas t1 k, .keyCas t2 k]
@@ -214,10 +252,22 @@ def step (s : St) (toks : List String) : IO (St × Bool) := do
     | none => bad
     | some a =>
       if isPending s a ∧ rest ≠ ["kcas"] then bad else
+      if s.joining.any (·.1 = a) ∧ rest ≠ ["jend"] then bad else
       match rest with
-      | "create" :: jd :: nm =>
-        if (jd ≠ "j" ∧ jd ≠ "d") ∨ (nm ≠ [] ∧ nm ≠ ["n"]) then bad else
-        fin [.createBegin a (jd = "j") (nm = ["n"]), .createEnd a] "create"
+      | "create" :: jd :: opts =>
+        if (jd ≠ "j" ∧ jd ≠ "d" ∧ jd ≠ "J") ∨ opts.length > 5 then bad else
+        match parseCOpts opts {} with
+        | none => bad
+        | some o =>
+          let j := jd ≠ "d"
+          if o.fail then
+            -- `pthread_create` fails: the block is freed again, the spinlock released, NULL: no event of the machine
+            if ¬ canAct m a ∨ m.spin.isSome then bad else idle "null"
+          else if o.early then
+            -- the child passes `p_uthread_set_local (library key)` and reaches the spinlock inside the creator's critical section
+            let t := m.nT
+            fin ([.createBegin a j o.named] ++ needKey m t 0 ++ [.createEnd a, .start t]) "create"
+          else fin [.createBegin a j o.named, .createEnd a] "create"
       | ["start"] => fin (needKey m a 0 ++ [.start a]) "none"
       | ["set", k, v] =>
         match k.toNat?, v.toNat? with
@@ -248,12 +298,41 @@ def step (s : St) (toks : List String) : IO (St × Bool) := do
         | none => bad
       | ["unref", h] =>
         match h.toNat? with
-        | some h => fin [.unref a h] "none"
+        | some h =>
+          -- the reference a blocked joiner relies on may not be given up under it
+          if s.joining.any (·.2 = h) ∧ (m.hdl h).userRefs ≤ 1 then bad else fin [.unref a h] "none"
         | none => bad
       | ["join", h] =>
         match h.toNat? with
-        | some h => fin [.join a h] "value"
+        | some h => if s.joining.any (·.2 = h) then bad else fin [.join a h] "value"
         | none => bad
+      | ["jbegin", h] =>
+        -- `p_uthread_join` issued while the target has not ended: the call blocks (the machine's `join` is not enabled)
+        match h.toNat? with
+        | some h =>
+          let x := m.hdl h
+          if a = 0 ∨ ¬ canAct m a ∨ ¬ h < m.nH ∨ x.written = false ∨ ¬ Permitted m (.join a h) ∨ x.joinable = false
+             ∨ x.thread = a ∨ (m.thr x.thread).phase = .ended ∨ s.joining.any (fun p => p.1 = x.thread ∨ p.2 = h) then bad
+          else
+            match PV.UThread.step m (.join a h) with
+            | .error .notEnabled => idle "blocked" ((a, h) :: s.joining)
+            | _ => bad
+        | none => bad
+      | ["jend"] =>
+        match s.joining.find? (·.1 = a) with
+        | none => bad
+        | some p =>
+          if (m.thr (m.hdl p.2).thread).phase ≠ .ended then bad
+          else fin [.join a p.2] "value" (joining' := s.joining.filter (·.1 ≠ a))
+      | ["prio", h, prs] =>
+        -- `p_uthread_set_priority` on a library thread that has not ended: no handle, reference or TLS state changes
+        match h.toNat?, prs.toNat? with
+        | some h, some pr =>
+          let x := m.hdl h
+          if prs.length ≠ 1 ∨ pr > 7 ∨ ¬ canAct m a ∨ ¬ h < m.nH ∨ x.written = false ∨ ¬ Permitted m (.ref a h) ∨ x.ours = false
+             ∨ (m.thr x.thread).phase = .ended then bad
+          else idle "none"
+        | _, _ => bad
       | ["keynew", n] =>
         if n ≠ "n" ∧ n ≠ "x" then bad else fin [.localNew a (n = "n")] "keynew"
       | ["keyfree", k] =>
